@@ -3,13 +3,12 @@ use super::*;
 
 // from_raw on a value whose metadata says "string" and whose raw bytes are ANY <= 4 bytes: either an error, or a
 // `Str` that borrows exactly those bytes AND those bytes are valid UTF-8 (checked with std's validator).
-// Bounded in the value length (every 1..4-byte UTF-8 sequence class and every ill-formed prefix of one).
-#[kani::proof]
-#[kani::unwind(6)]
-fn u17_from_raw_string_valid() {
-    let buf: [u8; 4] = kani::any();
+// Bounded in the value length (<= 3 bytes quick, <= 4 bytes thorough: every UTF-8 sequence class and every
+// ill-formed prefix of one).
+fn check_from_raw_string<const N: usize>() {
+    let buf: [u8; N] = kani::any();
     let n: usize = kani::any();
-    kani::assume(n <= 4);
+    kani::assume(n <= N);
     let raw = &buf[..n];
     let hi: u64 = kani::any();
     kani::assume(hi < (1u64 << 59));
@@ -25,4 +24,16 @@ fn u17_from_raw_string_valid() {
             assert!(std::str::from_utf8(raw).is_err());
         }
     }
+}
+
+#[kani::proof]
+#[kani::unwind(6)]
+fn u17_from_raw_string_valid() {
+    check_from_raw_string::<3>();
+}
+
+#[kani::proof]
+#[kani::unwind(6)]
+fn u17_from_raw_string_valid_t() {
+    check_from_raw_string::<4>();
 }
